@@ -262,6 +262,50 @@ def oracle(ctx, corr, gen, g3, exe, net, tmp, tag, n_orders):
     return ok
 
 
+def result_oracle(corr, net, gen, lines, alg):
+    """on the implementation's own numbers: X' = X0 + R (dn, de, du)/1000 with R from the printed frame, dn/de/du =
+    adj x at the printed index, every point with a parameter on par_list written exactly once"""
+    x, frames, idx, given = [], {}, {}, {}
+    for l in lines:
+        t = l.split()
+        if t[:2] == ["data", "adj"]:
+            x = [hex2float(v) for v in t[6:]]
+        elif t[:2] == ["res", "frame"]:
+            frames[t[2]] = [hex2float(v) for v in t[3:12]]
+        elif t[:2] == ["res", "idx"]:
+            idx[t[2]] = [int(v) for v in t[3:6]]
+        elif t[:2] == ["data", "pt"]:
+            given[t[2]] = [hex2float(v) for v in t[5:8]]
+    seen = []
+    for l in lines:
+        t = l.split()
+        if t[:2] != ["res", "pt"] or len(t) < 12:
+            continue
+        name = t[2]
+        seen.append(name)
+        d = [hex2float(v) for v in t[3:6]]
+        adj = [hex2float(v) for v in t[9:12]]
+        want = [x[k - 1] if k else 0.0 for k in idx.get(name, [0, 0, 0])]
+        if any(abs(a - b) > 1e-9 * max(1.0, abs(b)) for a, b in zip(d, want)):
+            corr.fail(f"point {name}: reported dn/de/du {d} are not the unknowns {want} of its indices {idx.get(name)} ({alg})",
+                      {"stream": "g3-result", "net": net, "xml": gen.to_xml(net, newline="\n"), "alg": alg}, "Model::update_adjustment")
+            return
+        R = frames.get(name)
+        if R and name in given:
+            for k in range(3):
+                exp = given[name][k] + (R[3 * k] * d[0] + R[3 * k + 1] * d[1] + R[3 * k + 2] * d[2]) / 1000.0
+                if abs(exp - adj[k]) > 1e-7:
+                    corr.fail(f"point {name}: adjusted {'XYZ'[k]} = {adj[k]!r} but X0 + R(dn,de,du)/1000 = {exp!r} ({alg})",
+                              {"stream": "g3-result", "net": net, "xml": gen.to_xml(net, newline="\n"), "alg": alg}, "Point::write_xml")
+                    return
+    want_pts = sorted(nm for nm, ix in idx.items() if nm in seen or any(ix))
+    if sorted(seen) != sorted(set(seen)) or not set(nm for nm, ix in idx.items() if any(ix)) <= set(seen):
+        corr.fail(f"adjustment results: points written {seen}, points with an adjusted parameter "
+                  f"{sorted(nm for nm, ix in idx.items() if any(ix))}",
+                  {"stream": "g3-result", "net": net, "xml": gen.to_xml(net, newline="\n"), "alg": alg},
+                  "Model::write_xml_adjustment_results_points")
+
+
 # ------------------------------------------------------------------ stream `lin`: one Model::linearization(T*)
 
 LIN_TYPES = ["vector", "xyz", "distance", "height", "hdiff", "zenith", "azimuth", "angle"]
@@ -666,13 +710,31 @@ def correspond(ctx, corr):
             nets.append(gross_error(ctx.rng, net))
 
     # ---- correspondence: harness on the XML, driver on the data the harness extracted
-    hcases = [["xml " + gen.to_xml(n), "adjrt"] for n in nets]
+    hcases = [["xml " + gen.to_xml(n), "adjrt", "adjust " + ctx.rng.choice(ALGS)] for n in nets]
     impl, crashes = run_cases(exe, hcases)
+    # cases in which Model::update_adjustment would read adj->x()(0) (finding G8): the harness skipped the adjustment;
+    # run them again one by one without the guard — on /repo HEAD the sanitizer aborts (failing input), on a repaired
+    # tree the result is compared like any other
+    skipped = [i for i, out in enumerate(impl) if i not in crashes and any(l.startswith("res adjust-skipped") for l in out)]
+    if skipped:
+        again, cr2 = run_cases(exe, [[hcases[i][0], hcases[i][2].replace("adjust ", "adjust! ")] for i in skipped])
+        for k, i in enumerate(skipped):
+            corr.count("result_cases_with_an_adjusted_height_without_column")
+            if k in cr2:
+                nm = [l.split()[-1] for l in impl[i] if l.startswith("res adjust-skipped")][0]
+                corr.fail(f"Model::update_adjustment reads adj->x()(0) (outside the solution vector) for point {nm}: its "
+                          "height is free / constrained but has no column (no active observation refers to it)",
+                          {"stream": "g3-result", "net": nets[i], "xml": gen.to_xml(nets[i], newline="\n"), "alg": hcases[i][2]},
+                          "Model::update_adjustment", cr2[k][1])
+            else:
+                impl[i] = impl[i] + [l for l in again[k] if l.startswith(("data adj ", "data qxx ", "data ref ", "res stat ", "res pt "))]
     dcases = []
     for i, out in enumerate(impl):
         data = [l[5:] for l in out if l.startswith("data ")]
         evs = [l for l in out if l.startswith("ev ")]
-        dcases.append(data + ["run"] + evs + ["adjrt"])
+        # `data adj / qxx / ref` (what update_adjustment read from class Adj) only set state; `result` recomputes
+        # the statistics and the per-point results from them
+        dcases.append(data + ["run"] + evs + ["adjrt"] + (["result"] if any(l.startswith("data adj ") for l in out) else []))
     model, mcr = run_cases(ctx.driver("drv_g3"), dcases)
     stat = {}
     for i, n in enumerate(nets):
@@ -696,7 +758,11 @@ def correspond(ctx, corr):
             corr.fail("generated g3 input refused: " + [l for l in impl[i] if l.startswith("throw")][0][:200],
                       {"stream": "g3-harness", "net": n, "xml": gen.to_xml(n, newline="\n")}, "DataParser/Model")
             continue
-        ires = [l for l in impl[i] if l.startswith("res ") and not l.startswith("res adjrt")]
+        RESULT = ("res stat ", "res pt ")
+        ires = [l for l in impl[i] if l.startswith("res ") and not l.startswith("res adjrt") and not l.startswith(RESULT)]
+        iresult = [l for l in impl[i] if l.startswith(RESULT)]
+        mresult = [l for l in model[i] if l.startswith(RESULT)]
+        model[i] = [l for l in model[i] if not l.startswith(RESULT)]
         split = model[i].index("res nominx") + 1 if "res nominx" in model[i] else \
             next((k + 1 for k, l in enumerate(model[i]) if l.startswith("res minx")), len(model[i]))
         mres, mrt = model[i][:split], model[i][split:]
@@ -715,6 +781,28 @@ def correspond(ctx, corr):
             corr.disagree("adj-xml", {"net": n, "xml": xmltxt[:3000]}, (ird + iev)[:60], mrt[:60], why)
         if any(l.split()[2:] and "0" in l.split()[2:] for l in impl[i] if l.startswith("res act")):
             corr.count("cases_with_rejected_or_inactive_observation")
+        # result side: update_adjustment + Point::write_xml against G3Net.stats / reportPoint / pointOrder
+        if iresult:
+            corr.count("result_cases")
+            corr.count("result_points", len(iresult) - 1)
+            why = cmp_lines(iresult, mresult, stat)
+            if why:
+                corr.disagree("g3-result", {"net": n, "xml": xmltxt[:3000], "alg": hcases[i][2]}, iresult[:40], mresult[:40], why)
+            result_oracle(corr, n, gen, impl[i], hcases[i][2])
+        elif any(l.startswith("throw") for l in impl[i][-2:]):
+            corr.count("result_cases_adjustment_refused")
+        # precision(16) dump: rd (fmt x) = q x, fmt (q x) = fmt x, q (q x) = q x on every number of the real dump
+        for l in impl[i]:
+            t = l.split()
+            if t[:2] == ["res", "adjrt16"]:
+                corr.count("dump16_numbers", int(t[3]))
+                corr.count("dump16_numbers_changed_by_16_digits", int(t[4]))
+                corr.maxstat("dump16_max_relative_change", hex2float(t[5]))
+                if t[2] != "stable":
+                    corr.fail("precision(16) dump: writing the re-read data again does not give the same text / numbers "
+                              "(the printer hypothesis `DecimalStream.stable` fails on this input)",
+                              {"stream": "adj-roundtrip16", "net": n, "xml": gen.to_xml(n, newline="\n")},
+                              "operator<< precision(16) / istringstream>>")
     for k, v in stat.items():
         corr.stats[k] = v
 
@@ -766,6 +854,11 @@ def classify(ctx, failure):
         # Model::linearization(ZenithAngle*): the n, e coefficients lack the factor local.e3 (the u component of the
         # line of sight); the u coefficients are right
         return "C19-zenith-horizontal-coef"
+    if rp.get("stream") == "g3-result" and failure.what.startswith("Model::update_adjustment reads adj->x()(0)") \
+            and "update_adjustment" in (failure.detail or ""):
+        # a point with a free / constrained height that occurs in no active observation: U.index() = 0 is used as an
+        # index into the solution vector (heap-buffer-overflow, read of 8 bytes before it)
+        return "C19-height-index-zero"
     net = rp.get("net") or {}
     pts = {p["id"]: p for p in net.get("points", [])}
     has = any(o["t"] == "angle" and any(pts[o[k]]["h"] != "fixed" and pts[o[k]]["u"] == "fixed" for k in ("from", "left", "right"))
@@ -825,6 +918,12 @@ def replay(ctx, payload):
     if inp.get("stream") == "g3-e2e":
         with tempfile.TemporaryDirectory(prefix="c19r-") as td:
             oracle(ctx, corr, gen, g3, exe, net, Path(td), "r", n_orders=4)
+    elif inp.get("stream") == "g3-result":
+        out, crashes = run_cases(exe, [["xml " + gen.to_xml(net), (inp.get("alg") or "adjust gso").replace("adjust ", "adjust! ")]])
+        if crashes:
+            corr.fail("Model::update_adjustment / result writer crashed (sanitizer)", {}, "", crashes[0][1])
+        else:
+            result_oracle(corr, net, gen, out[0], inp.get("alg"))
     else:
         out, crashes = run_cases(exe, [["xml " + gen.to_xml(net), "adjrt"]])
         if crashes:
